@@ -292,6 +292,16 @@ pub broadcast axiom fn ax_sqrt(x: f64)
 pub assume_specification [f64::atan2] (y: f64, x: f64) -> (r: f64) ensures r == atan2_spec(y, x);
 pub assume_specification [f64::sqrt] (x: f64) -> (r: f64) ensures r == sqrt_spec(x);
 pub assume_specification [f64::acos] (x: f64) -> (r: f64) ensures r == acos_spec(x);
+// further libm functions that the pinned tree does not use: total, deterministic, otherwise UNCONSTRAINED (no axioms), so
+// that a change which introduces one of them fails the obligations it breaks instead of leaving the unit undecided
+pub uninterp spec fn atan_spec(x: f64) -> f64;
+pub uninterp spec fn asin_spec(x: f64) -> f64;
+pub uninterp spec fn tan_spec(x: f64) -> f64;
+pub uninterp spec fn hypot_spec(x: f64, y: f64) -> f64;
+pub assume_specification [f64::atan] (x: f64) -> (r: f64) ensures r == atan_spec(x);
+pub assume_specification [f64::asin] (x: f64) -> (r: f64) ensures r == asin_spec(x);
+pub assume_specification [f64::tan] (x: f64) -> (r: f64) ensures r == tan_spec(x);
+pub assume_specification [f64::hypot] (x: f64, y: f64) -> (r: f64) ensures r == hypot_spec(x, y);
 pub axiom fn ax_rsqrt(x: real)
     requires x >= 0real
     ensures rsqrt(x) >= 0real, rsqrt(x) * rsqrt(x) == x;
